@@ -202,3 +202,16 @@ _set('C11', 'technique', 'Verus contract against a recursive spec of line/column
 _set('C12', 'technique', 'Kani table-vs-implementation harnesses on the real linter and VM functions; Verus contracts on the extracted linter traversals (trait-level contract shared by the overriding linters), type rules, argument rules and the checker pipeline')
 _set('C13', 'technique', 'Kani complete harnesses (26-letter loops unwound) + Verus contracts on the name tables and on every name / DIM / REDIM rule of the converter')
 _set('C15', 'technique', 'Verus contracts on the extracted label resolver / address bookkeeping and on the whole extracted code generator (linear stack discipline, label closure, program shape)')
+
+# ---- session 4 (2026-09-25) --------------------------------------------------------------------------------------
+_set('C15', 'level_text', 'Proof (Verus, unbounded in program size) of the label resolver and statement-address contracts and of the whole code generator, three times over its real text: a LINEAR stack discipline with label closure (gen_balance), "defines every label once" (gen_labels: no label twice in the list generate_unresolved returns, under the caller obligations H-pos / H-user / H-sub), and - where unit gen_paths is listed in the evidence - every generated branch connects two points of equal stack depth, so that the linear discipline holds along every path inside a statement.')
+_add('C15', 'decides', 'gen_labels (Verus, 78 generator functions on their real bodies): expression-level code defines no label; label(p, pos) defines exactly that one generated name; a statement-level function appends a segment in which no label occurs twice, every generated label standing at a position of its own statement tree and every other label being a user label of that tree; FOR / WHILE / DO: what is left when the own labels are taken away is what ONE emission of the body defined (the obligation the FOR ... STEP defect 57 fails); generate_unresolved started on an empty list: nodup_labels(the whole list).')
+_set('C15', 'not_decided', 'addresses strictly ascending (false because of CONST; only find_next at a duplicated failing address needs it); stack balance across control transfers that leave the statement (EXIT / GOTO out of a FOR body, a RESUME NEXT that abandons a statement half-way); H-pos / H-user / H-sub are caller obligations (parser / linter), the injectivity of format!-made label texts is a declared axiom')
+_set('C15', 'technique', 'Verus contracts on the extracted label resolver / address bookkeeping and on the whole extracted code generator (linear stack discipline, label closure, program shape; label uniqueness by multisets of defined labels; depth-consistent branches)')
+_set('C17', 'level_text', 'Proof (Kani, complete over numeric payloads) of the argument checks (negative counts / non-positive starts raise Illegal function call); the defining equations of every string built-in of the statement on its REAL wrapper through the mock interpreter, as bounded stand-ins in the string length (strings of at most 3 characters, every count / start / length symbolic over the whole INTEGER range).')
+_add('C17', 'decides', 'builtin_strings (Kani, the whole wrapper: argument fetch, range checks, kernel, result slot): LEFT$ / RIGHT$ / MID$ = the prefix / suffix / substring by index arithmetic on character codes, LEFT$(s,n) + MID$(s,n+1) = s; INSTR = least position >= n; UCASE$ / LCASE$ change letters only; LTRIM$ / RTRIM$ remove exactly the blanks; SPACE$(n) = STRING$(n,32); negative counts and non-positive starts -> Illegal function call with no result written. builtin_values: MKD$ / CVD / CHR$ / STR$ / VAL wrappers, VAL(STR$(k)) = k over all INTEGER k, VAL returns a DOUBLE (the function\'s static type).')
+_set('C17', 'not_decided', 'strings longer than the stated bounds (string code cannot be closed by either tool: str iterators); LCASE$/UCASE$ on characters above 127')
+_set('C17', 'technique', 'Kani complete harnesses for argument checks + bounded Kani harnesses on the real built-in wrappers through a mock interpreter (contract stubs for the variable store) and on the real private string kernels')
+_add('C09', 'decides', 'comment_kernel (Kani, attempt) / string_literal_kernel (Kani, bounded): the text of a comment / string literal is read character by character up to the line end (CR, LF, end) / the closing quote, verbatim, whatever it contains (defects 58, 59).')
+_add('C10', 'decides', 'string_literal_kernel::inside_string (Kani, bounded 1-2 characters, discharged since defect 58): the text of a string literal is the maximal run of characters other than the quote, CR and LF, verbatim; the input is left right behind it.')
+_add('C20', 'decides', 'or(): the second alternative starts at the original position for ANY first alternative, also one that does not undo its own soft failure (defect 60).')
